@@ -190,7 +190,9 @@ CHECKS = {
   "text": "Theorems: every cell of the exporter's three spelling tables (M, m, mm: 12 tonics x 7 degrees, regenerated from to_mxl.SCALES) names "
           "the pitch class of its scale degree, the only names crossing an octave boundary being B# and Cb (kernel sweep); hence for EVERY pitch "
           "p in Z and every chord in any of the nine modes the written note (name + octave, church modes spelled by pitch class) has MIDI number "
-          "60 + p - spelling may differ enharmonically, the sounding pitch never does. The tie/rest state machine of Score.to_music21 (ties to "
+          "60 + p - spelling may differ enharmonically, the sounding pitch never does; every exported voice - and every prefix of chords of it - "
+          "lasts exactly the sum of the chord durations whatever the part does (absent, shorter than its chord, rests, ties), so the elements "
+          "of each chord start where the renderer starts them. The tie/rest state machine of Score.to_music21 (ties to "
           "the previous element, absent part = rest, padding of short parts, rest flag) is modelled and compared element by element with the "
           "music21 stream; the oracle merges tied elements and compares (onset, pitch, duration) with C03's sounding notes of the implementation. "
           "Four defects of the exporter were repaired (church modes KeyError, continuation after the first note of a chord, short parts, stale rest flag).",
